@@ -448,26 +448,40 @@ def execute(record, ctx):
     if record.get('mode') == 'restart':
         mine = histories_for_child(record)
         prepare_globals(record)
-        for hs in record['hash_seeds']:
+
+        def child(hs):
             env = dict(os.environ, PYTHONHASHSEED=hs)
             p = subprocess.run([sys.executable, os.path.join(VERIF, 'check.py'), '_c02child'], input=json.dumps(record),
                                capture_output=True, text=True, env=env, timeout=600)
             try:
-                theirs = json.loads(p.stdout.strip().splitlines()[-1])
+                out = json.loads(p.stdout.strip().splitlines()[-1])
             except Exception:  # noqa: BLE001
                 raise HarnessError(f'restart child failed: {p.stdout[-300:]} {p.stderr[-1500:]}')
             ctx.fault('restart_fresh_interpreter')
             ctx.ticks += len(record['ops'])
+            return out
+
+        def compare(a, b, code, hs):
             for c in range(ncl):
-                if mine[c][0] != theirs[c][0]:
-                    i = next((j for j, (x, y) in enumerate(zip(mine[c][1], theirs[c][1])) if x != y), -1)
-                    spec = record['clients'][c]
-                    what = _what(spec)
-                    opn = mine[c][2][i] if 0 <= i < len(mine[c][2]) else 'length'
-                    ctx.violate('isolation', 'differs_across_interpreters', what, f'first_difference_at_{opn}', -1,
+                if a[c][0] != b[c][0]:
+                    i = next((j for j, (x, y) in enumerate(zip(a[c][1], b[c][1])) if x != y), -1)
+                    what = _what(record['clients'][c])
+                    opn = a[c][2][i] if 0 <= i < len(a[c][2]) else 'length'
+                    ctx.violate('isolation', code, what, f'first_difference_at_{opn}', -1,
                                 f'client {c} ({what}) has a different history under PYTHONHASHSEED={hs} (first differing op #{i}: {opn})')
-                    break
-            ctx.log('restart', hs, [m[0] for m in mine])
+                    return False
+            return True
+
+        # the reference is a fresh interpreter with a FIXED hash seed, so that the verdict (and its replay) does not
+        # depend on the hash seed of the process running the check; this process is compared with a fresh interpreter
+        # under its own hash seed (a warm process must agree with a cold one)
+        ref = child('0')
+        own = os.environ.get('PYTHONHASHSEED', '')
+        if own.isdigit():
+            compare(mine, ref if own == '0' else child(own), 'differs_from_fresh_interpreter_with_same_hash_seed', own)
+        for hs in record['hash_seeds']:
+            compare(ref, child(hs), 'differs_across_interpreters', hs)
+            ctx.log('restart', hs, [m[0] for m in ref])
         if ctx.fired:
             ctx.distinct.add(ctx.trace_digest())
         ctx.sample = {'mode': 'restart', 'clients': [c.get('yaml') or c.get('reset') or 'free-form' for c in record['clients']], 'hash_seeds': record['hash_seeds']}
